@@ -22,7 +22,7 @@ LEVEL_TEXT = ('templates, pooled covariance and its pseudo-inverse are compared 
 LEVEL_NOTE = 'trusted: numpy.cov / numpy.linalg.pinv in float64 as reference linear algebra'
 ASSUMPTIONS = [
     'every declared class has at least 2 building traces (the unbiased covariance of the statement is undefined otherwise)',
-    'cases whose pooled covariance has condition number > 1e4 are generated rarely and skipped (counted) for the score comparison',
+    'pooled covariances with condition number > 1e4 (duplicated / constant samples, fewer degrees of freedom than samples are generated on purpose): pooled_covariance_inv must still be numpy.linalg.pinv of the exposed covariance and the scores must follow from the exposed profile; the comparison with the oracle\'s own covariance is skipped there',
     'tolerances: covariance 64 eps (max|x|^2+1) (x n for real-valued traces); scores: first-order propagation through the pseudo-inverse (cond x relative covariance error)',
 ]
 
@@ -134,9 +134,12 @@ def _check(ctx, case):
     cond = lam_max / lam_min if lam_min > 0 else float('inf')
     pinv_o = np.linalg.pinv(cov)
     pinv_obj = np.asarray(a.pooled_covariance_inv, dtype='float64')
-    if cond < 1e4:
-        if (np.abs(pinv_obj - np.linalg.pinv(pc)) > 1e-9 * cond / lam_min + 1e-12).any():
-            raise Violation('%s: pooled_covariance_inv is not the pseudo-inverse of pooled_covariance' % attack, case)
+    # the pseudo-inverse of the exposed covariance: the same numpy function on the same matrix, so the comparison is meaningful
+    # for rank-deficient covariances too (constant / duplicated samples, fewer degrees of freedom than samples)
+    pinv_pc = np.linalg.pinv(pc)
+    if pinv_obj.shape != pinv_pc.shape or (np.abs(pinv_obj - pinv_pc) > 1e-9 * (float(np.max(np.abs(pinv_pc))) + 1e-300)).any():
+        raise Violation('%s: pooled_covariance_inv is not the pseudo-inverse of pooled_covariance (largest entry %.3g, pseudo-inverse has %.3g; covariance eigenvalues %s)' % (
+            attack, float(np.max(np.abs(pinv_obj))), float(np.max(np.abs(pinv_pc))), np.round(evals, 6).tolist()), case)
     # matching runs accumulate as if the matching sets were concatenated
     all_t, all_pt = [], []
     for ri, (m, cont) in enumerate(zip(mruns, conts)):
@@ -160,9 +163,19 @@ def _check(ctx, case):
         if a.processed_traces != mt.shape[0]:
             raise Violation('%s: processed_traces %s after matching %d traces' % (attack, a.processed_traces, mt.shape[0]), case)
         if not cond < 1e4:
-            ctx.count('skipped_scores_ill_conditioned')
+            # rank-deficient / ill-conditioned covariance: only the relation to the exposed profile is asserted, with the
+            # rounding of the subtraction amplified by the norm of the pseudo-inverse
+            sa = _scores(mt, tpl, pinv_pc, index_fn, ncand)
+            mxm = float(np.max(np.abs(mt.astype('float64')))) + mx + 1
+            normp = float(np.linalg.norm(pinv_pc, 2))
+            tol_s = 64 * eps * mxm * mxm * normp * L + 1e-9 * (np.abs(10 - sa) + 1)
+            if normp < 1e8 and (np.abs(scores - sa) > tol_s).any():
+                c = int(np.argwhere(np.abs(scores - sa) > tol_s)[0][0])
+                raise Violation('%s (%s) run #%d (rank-deficient covariance): score of candidate %d is %r, 10 - mean squared Mahalanobis distance with the pseudo-inverse of the exposed covariance is %r' % (
+                    attack, precision, ri + 1, c, scores[c], sa[c]), case)
+            ctx.count('score_vectors_compared_rank_deficient' if normp < 1e8 else 'skipped_scores_ill_conditioned')
             continue
-        sa = _scores(mt, tpl, np.linalg.pinv(pc), index_fn, ncand)
+        sa = _scores(mt, tpl, pinv_pc, index_fn, ncand)
         sb = _scores(mt, mu, pinv_o, index_fn, ncand)
         mxm = float(np.max(np.abs(mt.astype('float64')))) + mx + 1
         d_a = np.abs(10 - sa) + 1
@@ -185,6 +198,8 @@ def _check(ctx, case):
         labels.append('unbalanced')
     if multi:
         labels.append('multi_batch_or_two_runs')
+    if not cond < 1e4:
+        labels.append('rank_deficient_or_ill_conditioned_covariance')
     if P != sorted(P) or P != list(range(k)):
         labels.append('non_contiguous_class_list')
     ctx.case(case, unbalanced and multi, labels)
@@ -229,6 +244,8 @@ def cases(draw, attack, precision, tdtypes, pool_seed=0):
     tdt = draw(st.sampled_from(tdtypes))
     isint = np.dtype(tdt).kind in 'iu'
     counts = [draw(st.integers(2, 8)) for _ in range(k)]
+    if draw(st.integers(0, 5)) == 0:
+        counts = [2] * k          # few traces per class: with long traces the pooled covariance is rank-deficient
     if draw(st.booleans()):
         counts = [counts[0]] * k
     lab = np.concatenate([np.full(c, P[i]) for i, c in enumerate(counts)])
@@ -256,6 +273,14 @@ def cases(draw, attack, precision, tdtypes, pool_seed=0):
         else:
             noise = g.normal(size=(n, L)) * 2
             bt = (centers[lab_idx] + noise + 0.3 * (noise @ mix)).astype(tdt)
+    # rank-deficient profiles: a duplicated sample, a constant sample, or (below) fewer within-class degrees of freedom than samples
+    degenerate = draw(st.sampled_from(['no', 'no', 'no', 'dup', 'const', 'dup_scaled'])) if L >= 2 else 'no'
+    if degenerate == 'dup':
+        bt[:, L - 1] = bt[:, 0]
+    elif degenerate == 'const':
+        bt[:, L - 1] = bt[0, L - 1]
+    elif degenerate == 'dup_scaled' and not isint:
+        bt[:, L - 1] = (bt[:, 0].astype('float64') * 0.5 + 1).astype(tdt)
     ddt = draw(st.sampled_from([d for d in gen.CLASS_DTYPES if int(lab.max()) <= np.iinfo(d).max]))
     nm = draw(st.integers(1, 2))
     matching = []
@@ -268,6 +293,10 @@ def cases(draw, attack, precision, tdtypes, pool_seed=0):
             mt = np.clip(bt[src].astype('int64') + g.integers(-3, 4, size=(m, L)), int(info.min), int(info.max)).astype(tdt)
         else:
             mt = (bt[src].astype('float64') + g.integers(-3, 4, size=(m, L))).astype(tdt)
+        if degenerate == 'dup':
+            mt[:, L - 1] = mt[:, 0]
+        elif degenerate == 'const':
+            mt[:, L - 1] = bt[0, L - 1]
         matching.append({'traces': mt, 'pt': pt.astype('uint8')})
     return {'kind': 'template', 'attack': attack, 'precision': precision, 'partitions': list(P), 'build_traces': bt, 'build_labels': lab.astype(ddt).reshape(n, 1),
             'batch_size': draw(st.sampled_from([0, 0, 1, 3, 5, 7, 16])), 'guesses': draw(st.integers(2, 5)), 'matching': matching,
